@@ -159,6 +159,13 @@ def _vals(nodes):
     return out
 
 
+def _num(x):
+    try:
+        return float(x)
+    except (TypeError, ValueError):
+        return str(x)
+
+
 def _close(a, b):
     if a is None or b is None:
         return a is None and b is None
@@ -230,7 +237,7 @@ def check_cell(spec, c):
                     return "param-value:fill-transform"
             else:
                 t = c.fill.transform
-                got = [float(x) for x in t.displacement_vector] + [float(x) for x in t.rotation_matrix.flatten()]
+                got = [_num(x) for x in t.displacement_vector] + [_num(x) for x in t.rotation_matrix.flatten()]
                 if not _same_list(inner[: len(got)], got) or len(got) < min(len(inner), 12):
                     return "param-value:fill-transform"
                 if bool(p.get("star")) != bool(t.is_in_degrees):
@@ -265,7 +272,7 @@ def check_surface(spec, s):
     if (s.old_periodic_surface or None) != (abs(int(ptr)) if ptr and ptr.startswith("-") else None):
         return "surface-periodic"
     exp = [_f(x) for x in g12.entries_values(spec["entries"])]
-    if not _same_list(exp, [float(x) for x in s.surface_constants]):
+    if not _same_list(exp, [_num(x) for x in s.surface_constants]):
         return "surface-constants"
     return None
 
@@ -321,12 +328,12 @@ def check_data(spec, d):
     elif b[0] == "numbers":
         exp = [_f(x) for x in g12.entries_values(b[2])]
         if name == "tr":
-            if any(x is None for x in exp):
-                return None  # a jumped entry keeps MCNP's default: only acceptance is required
-            got = [float(x) for x in d.displacement_vector] + [float(x) for x in d.rotation_matrix]
-            if not _same_list(exp[: min(12, len(exp))], got):
+            got = [_num(x) for x in d.displacement_vector] + [_num(x) for x in d.rotation_matrix]
+            want = exp[: min(12, len(exp))]
+            # a jumped entry keeps MCNP's default: its position is not compared
+            if len(got) != len(want) or any(w is not None and not _close(w, g) for w, g in zip(want, got)):
                 return "transform-values"
-            if len(exp) == 13 and d.is_main_to_aux != (exp[12] > 0):
+            if len(exp) == 13 and exp[12] is not None and d.is_main_to_aux != (exp[12] > 0):
                 return "transform-direction"
             if d.is_in_degrees != bool(spec.get("star")):
                 return "transform-degrees"
@@ -498,7 +505,7 @@ def signature(item, want):
 # --------------------------------------------------------------------------------------------- whole files
 def gen_file(rng, tables):
     """A well-formed problem (5.2 constraints): list of card specs per block + title/message flags."""
-    P = [p for p in tables["particles"] if p not in ("u", "x", "y", "z")]
+    P = [p for p in tables["particles"] if p not in ("u", "x", "y", "z", "c")]
     mode = rng.sample(P, rng.choice([1, 1, 2, 3]))
     ns = rng.randint(3, 9)
     snums = rng.sample(range(1, 200), ns)
@@ -506,11 +513,19 @@ def gen_file(rng, tables):
     mats = rng.sample(range(1, 50), 3)
     univ = rng.sample(range(1, 20), 2)
     ctx = {"particles": mode, "universes": univ, "transforms": trs, "surfs": snums, "cells": [], "materials": mats, "periodic": snums}
-    surfaces = [g12.gen_surface(rng, tables, ctx, num=n) for n in snums]
+    known = {c for c, _ in CAUSES}
+
+    def clean(make):
+        for _ in range(40):
+            sp = make()
+            if cause_of(sp) not in known:
+                return sp
+        return sp
+
+    surfaces = [clean(lambda n=n: g12.gen_surface(rng, tables, ctx, num=n)) for n in snums]
     for s in surfaces:
         if s["ptr"] and s["ptr"].startswith("-") and s["ptr"][1:] == s["num"]:
             s["ptr"] = None
-        s["entries"] = _tame(s["entries"])
     nc = rng.randint(2, 8)
     cnums = rng.sample(range(1, 300), nc)
     imp_in_cells = rng.random() < 0.6
@@ -518,7 +533,7 @@ def gen_file(rng, tables):
     used_u = set()
     for i, n in enumerate(cnums):
         ctx["cells"] = cnums[:i]
-        c = g12.gen_cell(rng, tables, ctx, num=n)
+        c = clean(lambda n=n: g12.gen_cell(rng, tables, ctx, num=n))
         ps = [p for p in c["params"] if p["key"] not in ("imp",) and not (p.get("idx") and any(q is not p and q["key"] == p["key"] for q in c["params"]))]
         seen = set()
         ps2 = []
@@ -560,7 +575,7 @@ def gen_file(rng, tables):
             cells.append({"kind": "cell", "num": str(n), "mat": None, "geom": ["s", "-" + str(snums[0])], "params": [{"key": "u", "val": ["nums", [["real", str(u)]]]}] + ([{"key": "imp", "pl": list(mode), "val": ["nums", [["real", "1"]]]}] if imp_in_cells else [])})
     data = [{"kind": "data", "name": "mode", "body": ["mode", mode]}]
     for m in mats:
-        data.append(g12.gen_material(rng, tables, num=m))
+        data.append(clean(lambda m=m: g12.gen_material(rng, tables, num=m)))
     if rng.random() < 0.5:
         data.append({"kind": "data", "name": "mt", "num": str(mats[0]), "body": ["thermal", rng.sample(g12.LAWS, 1)]})
     for t in trs:
@@ -571,7 +586,7 @@ def gen_file(rng, tables):
             data.append({"kind": "data", "name": "imp", "pl": [m], "body": ["numbers", None, [["real", rng.choice(["1", "0", "2"])] for _ in cells]]})
     seen = set()
     for _ in range(rng.randint(0, 5)):
-        d = g12.gen_data(rng, tables, which=rng.choice(["f", "f5", "tallyaux", "fc", "sdef", "sisp", "sc", "ksrc", "kcode", "generic"]))
+        d = clean(lambda: g12.gen_data(rng, tables, which=rng.choice(["f", "f5", "tallyaux", "fc", "sdef", "sisp", "sc", "ksrc", "kcode", "generic"])))
         key = (d["name"], d.get("num"), tuple(d.get("pl") or []))
         if key in seen or d["name"] in ("tmp", "pd", "wwn", "dxc", "ext", "fcl", "elpt", "pwt", "nonu"):
             continue
@@ -582,6 +597,8 @@ def gen_file(rng, tables):
             continue
         if d.get("pl"):
             d["pl"] = [rng.choice(mode)]
+        if cause_of(d) in known:
+            continue
         data.append(d)
     return {"message": rng.random() < 0.3, "title": rng.choice(["a title", "C12 generated problem", "1 0 -1 imp:n=1"]), "cells": cells, "surfaces": surfaces, "data": data, "crlf": rng.random() < 0.2, "final_blank": rng.random() < 0.5}
 
@@ -925,6 +942,14 @@ def run(chk):
                 ri2 = run_card(it)
                 if "spec_classes" in bad and ri2["tokens"] == a["classes"]:
                     chk.count("flaky:disagreement-not-reproduced")
+                elif "spec_classes" in bad and cause_of(spec) in {c for c, _ in CAUSES}:
+                    # the sentence was accepted, but its token stream is not the one G's words denote, and it belongs
+                    # to a family with a recorded lexing/grammar defect: reported under that family's signature
+                    chk.violation(
+                        {"mechanism": "grammar", "class": "mislexed", "rule": cause_of(spec), "exception": "token-classes"},
+                        f"G sentence accepted with a different token stream: {ri['text']!r}",
+                        {"spec": spec, "mode": it["mode"], "seed": it["seed"], "text": ri["text"], "spec_classes": a["classes"], "lexer_tokens": ri["tokens"]},
+                    )
                 else:
                     chk.broken_obligation("correspondence", "U-lexclass (Spec.Card classes vs tokens.py lexers)", bad, dict(it, text=ri["text"]))
         # U-dispatch
